@@ -1784,6 +1784,23 @@ fn scale_one(shape0: &str, n: usize, sink_on: bool) -> String {
                 }
             }
         }
+        "chain" => {
+            // acyclic: 0 adopts 1 adopts 2 ...; nothing is a group, every object dies by the
+            // plain last-handle path (recursively, which is why this shape gets a large stack)
+            for i in 0..n - 1 {
+                edges.push((i, i + 1));
+            }
+        }
+        "chain2ring" => {
+            // an acyclic chain of n/10 adopters in front of a ring of the remaining objects
+            let k = (n / 10).max(1);
+            for i in 0..k {
+                edges.push((i, i + 1));
+            }
+            for i in k..n {
+                edges.push((i, if i + 1 < n { i + 1 } else { k }));
+            }
+        }
         _ => {}
     }
     let links = edges.len();
@@ -1822,6 +1839,29 @@ fn scale_one(shape0: &str, n: usize, sink_on: bool) -> String {
             store(a, h);
         }
     }
+    // the price of tracing and of reclaiming a 3-ring, in bytes requested from the allocator
+    let small = || -> u64 {
+        let r: Vec<Rc<Node>> = (0..3).map(|i| mk(n + 1 + i)).collect();
+        for i in 0..3 {
+            let h = Rc::clone(&r[(i + 1) % 3]);
+            unsafe {
+                Rc::adopt_unchecked(&r[i], &h);
+                (*Rc::as_ptr(&r[i])).strong.borrow_mut().push(SH { h: ManuallyDrop::new(h), owner: 0, target: 0 });
+            }
+        }
+        let mut r = r;
+        let a = r.remove(0);
+        drop(r);
+        let b0 = unsafe { track::TOTAL_BYTES };
+        let h2 = Rc::clone(&a);
+        drop(h2); // traced, alive
+        drop(a); // traced, reclaimed
+        unsafe { track::TOTAL_BYTES - b0 }
+    };
+    unsafe {
+        SCALE.quiet_hdrop = true;
+    }
+    let small_before = small();
     let keep = nodes[0].take().unwrap();
     let weak0 = Rc::downgrade(&keep);
     let weakl = Rc::downgrade(&*tmp(n - 1));
@@ -1849,10 +1889,11 @@ fn scale_one(shape0: &str, n: usize, sink_on: bool) -> String {
     let cpu = thread_cpu_us() - t0;
     let c = unsafe { SCALE };
     let alive = weak0.upgrade().is_some() || weakl.upgrade().is_some();
+    let small_after = small();
     verif::set_sink(Some(sink));
     format!(
-        "{{\"k\":\"scale\",\"shape\":\"{}\",\"n\":{},\"links\":{},\"ntrace\":{},\"npop\":{},\"nvisit\":{},\"maxdepth\":{},\"nd\":{},\"alive\":{},\"premature\":{},\"cpu_us\":{}}}",
-        shape0, n, links, c.ntrace, c.npop, c.nvisit, c.maxdepth, c.nd, alive, premature, cpu
+        "{{\"k\":\"scale\",\"shape\":\"{}\",\"n\":{},\"links\":{},\"ntrace\":{},\"npop\":{},\"nvisit\":{},\"maxdepth\":{},\"nd\":{},\"alive\":{},\"premature\":{},\"cpu_us\":{},\"small_before\":{},\"small_after\":{}}}",
+        shape0, n, links, c.ntrace, c.npop, c.nvisit, c.maxdepth, c.nd, alive, premature, cpu, small_before, small_after
     )
 }
 
